@@ -172,7 +172,7 @@ def describe(helper, variant):
     nm = helper
     d = {"helper": helper, "variant": variant, "kind": kind, "sub": sub, "prims": list(prims),
          "nmax": int(p.nclkouts_max), "fin": [1, -1], "fout": [1, -1], "pfd": [0, -1], "hasvm": 0, "hasphase": 1,
-         "literal": []}
+         "m0only": 0, "literal": []}
     fin = getattr(p, "clkin_freq_range", None) or getattr(p, "clki_freq_range", None)
     if fin:
         d["fin"] = _frange(fin, nm + ".clkin_freq_range")
@@ -250,7 +250,7 @@ def describe(helper, variant):
         d["odiv"] = [1, 128]
         d["literal"] += ["IDIV 1..63, FBDIV 1..63, MDIV 2..127 (loop bounds)", "ODIV 1..128 (comment on ODIV0_SEL)"]
     elif kind == "trion":
-        d["hasphase"] = 1
+        d["m0only"] = 1        # EFINIXPLL.compute_config ignores the margin argument (exact match only)
         dev = variant
         d["vco"] = _frange(p.get_vco_freq_range(dev), nm + ".get_vco_freq_range")
         d["pfd"] = _frange(p.get_pfd_freq_range(dev), nm + ".get_pfd_freq_range")
